@@ -739,6 +739,12 @@ func (r *runner) checkRead(rd pendingRead) bool {
 	// signalling-NaN bit pattern: a property of the host language, not of the copy)
 	expect := hostBytes(hostValue(rd.typ, rd.expect, true))
 	st := r.bufs[rd.buf]
+	// what the host would hold had the copy delivered an earlier state of the range (decoded the
+	// same way: a stale signalling NaN is quieted like a current one)
+	var earlier [][]byte
+	older := func(img []byte) {
+		earlier = append(earlier, hostBytes(hostValue(rd.typ, append([]byte(nil), img[rd.off:rd.off+len(got)]...), true)))
+	}
 	first, nbad, allStale := -1, 0, true
 	for i := range got {
 		if got[i] != expect[i] {
@@ -746,8 +752,22 @@ func (r *runner) checkRead(rd pendingRead) bool {
 				first = i
 			}
 			nbad++
+			if earlier == nil {
+				older(st.dram)
+				for _, s := range st.snaps {
+					older(s)
+				}
+			}
 			if !st.stale(rd.off+i, got[i]) {
-				allStale = false
+				was := false
+				for _, e := range earlier {
+					if e[i] == got[i] {
+						was = true
+					}
+				}
+				if !was || !st.kline[(rd.off+i)/lineSize] {
+					allStale = false
+				}
 			}
 		}
 	}
